@@ -12,7 +12,8 @@ Import ListNotations.
 Definition obs_member : Type := string * (bool * payload).
 Definition obs_space : Type :=
   path * (list obs_member * list obs_member) * (list path * list path) * list (string * option Z).
-Definition obs : Type := nat * list obs_space.
+(** [None]: the harness did not look at the model after this operation *)
+Definition obs : Type := nat * option (list obs_space).
 
 Definition payload_eqb (a b : payload) : bool :=
   match a, b with
@@ -79,7 +80,9 @@ Fixpoint tie_from (st : state) (h : list op) (os : list obs) : bool :=
   | [], [] => true
   | o :: h', (code, snap) :: os' =>
       let r := step st o in
-      outcome_matches code (snd r) && state_matches (fst r) snap && tie_from (fst r) h' os'
+      outcome_matches code (snd r)
+      && match snap with Some s => state_matches (fst r) s | None => true end
+      && tie_from (fst r) h' os'
   | _, _ => false
   end.
 
@@ -104,7 +107,7 @@ Definition check_snapshot (os : list obs_space) : bool :=
                                      (tl (mro_list g (obs_path o))) o) os.
 
 Definition check_p (c : list op * list obs) : bool :=
-  forallb (fun o => check_snapshot (snd o)) (snd c).
+  forallb (fun o => match snd o with Some s => check_snapshot s | None => true end) (snd c).
 
 Definition check_both (c : list op * list obs) : bool := check_tie c && check_p c.
 
@@ -124,6 +127,7 @@ Fixpoint tie_trace (st : state) (h : list op) (os : list obs) : list (bool * boo
   match h, os with
   | o :: h', (code, snap) :: os' =>
       let r := step st o in
-      (outcome_matches code (snd r), state_matches (fst r) snap) :: tie_trace (fst r) h' os'
+      (outcome_matches code (snd r), match snap with Some s => state_matches (fst r) s | None => true end)
+      :: tie_trace (fst r) h' os'
   | _, _ => []
   end.
